@@ -290,6 +290,7 @@ func report(prop, tier string, seed int, ps PropSpec, results []*harnessResult, 
 	var harnessRows []map[string]interface{}
 	violations := 0
 	knownMatched := []string{}
+	groupObl := map[string]int{}
 	exit := 0
 	for _, r := range results {
 		if r.Err != "" {
@@ -350,7 +351,11 @@ func report(prop, tier string, seed int, ps PropSpec, results []*harnessResult, 
 				inconclusive = append(inconclusive, fmt.Sprintf("%s%v: native run of the witness did not reach %s (ENGINE-MISMATCH) %s raw=%s", r.Spec.Fn, r.Spec.Params, id, out.summary(), truncStr(out.raw, 300)))
 			}
 		}
-		if e.Obligations == 0 && len(e.Failures) == 0 {
+		// vacuity is judged per harness function and parameter set: a partition (cfg prefix)
+		// may be empty, but some partition must reach the assertions
+		gk := fmt.Sprintf("%s%v", r.Spec.Fn, r.Spec.Params)
+		groupObl[gk] += e.Obligations + len(e.Failures)
+		if _, ok := r.Spec.Cfg["prefix"]; !ok && e.Obligations == 0 && len(e.Failures) == 0 {
 			inconclusive = append(inconclusive, r.Spec.Fn+": no assertion reached (vacuous harness)")
 		}
 		// failures: replay, classify
@@ -386,9 +391,14 @@ func report(prop, tier string, seed int, ps PropSpec, results []*harnessResult, 
 			fmt.Printf("  harness=%s kind=%s assert=%s site=%s\n  %s\n  %s\n", r.Spec.Fn, f.Kind, f.AssertID, f.Site, f.Msg, out.summary())
 			exit = 1
 		}
-		harnessRows = append(harnessRows, map[string]interface{}{"harness": r.Spec.Fn, "params": r.Spec.Params, "paths": e.Paths, "path_ends": e.Ends,
+		harnessRows = append(harnessRows, map[string]interface{}{"harness": r.Spec.Fn, "params": r.Spec.Params, "cfg": r.Spec.Cfg, "paths": e.Paths, "path_ends": e.Ends,
 			"ssa_instructions": e.Steps, "obligations": e.Obligations, "discharged": e.Discharged, "queries": e.sol.Queries,
 			"solver_time_s": round2(e.sol.Time.Seconds()), "wall_s": round2(r.Wall.Seconds()), "max_decisions_on_a_path": e.MaxDecisions, "assert_ids_reached": ids})
+	}
+	for gk, n := range groupObl {
+		if n == 0 {
+			inconclusive = append(inconclusive, gk+": no assertion reached in any partition (vacuous harness)")
+		}
 	}
 	inconclusive = dedupe(inconclusive)
 	for _, s := range inconclusive {
